@@ -51,6 +51,11 @@ type Term struct {
 
 func (t *Term) isConst() bool { return t.Op == "const" }
 
+// iteConst: ite(c, k1, k2) with constant branches (operations distribute over it)
+func iteConst(t *Term) bool {
+	return t.Op == "ite" && t.Args[1].isConst() && t.Args[2].isConst()
+}
+
 type termTable struct {
 	tab  map[string]*Term
 	next int
@@ -380,6 +385,12 @@ func (tt *termTable) BV(op string, a, b *Term) *Term {
 			return tt.BVConst(r, w)
 		}
 	}
+	if iteConst(a) && b.isConst() {
+		return tt.Ite(a.Args[0], tt.BV(op, a.Args[1], b), tt.BV(op, a.Args[2], b))
+	}
+	if iteConst(b) && a.isConst() {
+		return tt.Ite(b.Args[0], tt.BV(op, a, b.Args[1]), tt.BV(op, a, b.Args[2]))
+	}
 	switch op {
 	case "bvadd", "bvor", "bvxor":
 		if a.isConst() && a.C == 0 {
@@ -434,6 +445,12 @@ func (tt *termTable) Cmp(op string, a, b *Term) *Term {
 	if a == b {
 		return tt.Bool(op == "bvule" || op == "bvsle")
 	}
+	if iteConst(a) && b.isConst() {
+		return tt.Ite(a.Args[0], tt.Cmp(op, a.Args[1], b), tt.Cmp(op, a.Args[2], b))
+	}
+	if iteConst(b) && a.isConst() {
+		return tt.Ite(b.Args[0], tt.Cmp(op, a, b.Args[1]), tt.Cmp(op, a, b.Args[2]))
+	}
 	return tt.intern(&Term{Op: op, S: sBool, Args: []*Term{a, b}})
 }
 
@@ -457,6 +474,9 @@ func (tt *termTable) Extract(a *Term, hi, lo int) *Term {
 	if a.isConst() {
 		return tt.BVConst(a.C>>uint(lo), hi-lo+1)
 	}
+	if iteConst(a) {
+		return tt.Ite(a.Args[0], tt.Extract(a.Args[1], hi, lo), tt.Extract(a.Args[2], hi, lo))
+	}
 	return tt.intern(&Term{Op: "extract", S: sBV(hi - lo + 1), Args: []*Term{a}, P: [2]int{hi, lo}})
 }
 func (tt *termTable) ZeroExt(a *Term, to int) *Term {
@@ -465,6 +485,9 @@ func (tt *termTable) ZeroExt(a *Term, to int) *Term {
 	}
 	if a.isConst() {
 		return tt.BVConst(a.C, to)
+	}
+	if iteConst(a) {
+		return tt.Ite(a.Args[0], tt.ZeroExt(a.Args[1], to), tt.ZeroExt(a.Args[2], to))
 	}
 	return tt.intern(&Term{Op: "zero_extend", S: sBV(to), Args: []*Term{a}, P: [2]int{to - a.S.W, 0}})
 }
@@ -746,4 +769,59 @@ func (tt *termTable) rebuild(t *Term, args []*Term) *Term {
 		return tt.BV(t.Op, args[0], args[1])
 	}
 	panic("rebuild: " + t.Op)
+}
+
+// boolSupport returns the boolean variables t depends on, or ok=false when it
+// depends on a non-boolean variable or on more than max variables.
+func (tt *termTable) boolSupport(t *Term, max int) (vars []*Term, ok bool) {
+	seen := map[int]bool{}
+	ok = true
+	var walk func(x *Term)
+	walk = func(x *Term) {
+		if !ok || seen[x.id] {
+			return
+		}
+		seen[x.id] = true
+		if x.Op == "var" {
+			if x.S.K != kBool {
+				ok = false
+				return
+			}
+			vars = append(vars, x)
+			if len(vars) > max {
+				ok = false
+			}
+			return
+		}
+		for _, a := range x.Args {
+			walk(a)
+		}
+	}
+	walk(t)
+	return
+}
+
+// caseSimplify rewrites a term that depends on at most two boolean variables
+// into an ite tree over constants (or a constant).
+func (tt *termTable) caseSimplify(t *Term) *Term {
+	if t.isConst() || t.Op == "var" {
+		return t
+	}
+	vars, ok := tt.boolSupport(t, 2)
+	if !ok {
+		return t
+	}
+	var build func(i int, model map[string]uint64) *Term
+	build = func(i int, model map[string]uint64) *Term {
+		if i == len(vars) {
+			return tt.eval(t, model, map[int]*Term{})
+		}
+		model[vars[i].Name] = 1
+		a := build(i+1, model)
+		model[vars[i].Name] = 0
+		b := build(i+1, model)
+		return tt.Ite(vars[i], a, b)
+	}
+	r := build(0, map[string]uint64{})
+	return r
 }
